@@ -245,7 +245,8 @@ class Link:
         """state-based answer of the library's aliveness primitive (used for auxiliary probes and unscripted isalive):
         socket send(b""): succeeds while no error is pending — also after the peer's FIN(*); fails after a reset / EPIPE(*).
         StreamReader.at_eof(): True only after feed_eof(), not after set_exception()(*).
-        waitpid: the child is gone once the pty reported EOF(*).   paramiko is_alive(): False once the transport thread ended.
+        waitpid: the child is gone once the pty reported EOF(*).   paramiko is_alive(): stays True while the transport
+        thread is up — also below a closed channel(*) (the channel's own flags `closed` / `eof_received` tell).
         asyncssh: _transport is dropped on connection loss(*); an EOF of the session channel alone leaves it up(*)."""
         if self.closed:
             return False
@@ -259,7 +260,7 @@ class Link:
         if self.t == "system":
             return False
         if self.t == "paramiko":
-            return False
+            return True                       # Transport.is_alive(): the ssh connection below a closed channel can stay up(*)
         if self.t == "asyncssh":
             return lo in ("empty", "epipe")
         return False
@@ -413,6 +414,15 @@ class FakeFile(_Fake):
 class FakeChannel(_Fake):
     def __init__(self, link):
         self.link = link
+
+    @property
+    def closed(self):
+        return self.link.closed or self.link.lost == ("write", "epipe")
+
+    @property
+    def eof_received(self):
+        lost = self.link.lost
+        return bool(lost and lost[0] == "read" and lost[1] in ("empty", "eof"))
 
     def recv(self, n):
         return self.link.do_read()
